@@ -5,6 +5,7 @@ import BigtoolsModel.Tiler3
 import BigtoolsModel.BedZoomCompose
 import BigtoolsModel.WigSections
 import BigtoolsModel.Stats2
+import BigtoolsModel.BBIWrite
 import BigtoolsModel.AutoSqlNTest
 /-! Driver commands `wig` and `bed`: the property-level observables of a written file, computed from the input
     by the model's specification-level functions (the byte-level writer/reader models are proved equal to
@@ -216,5 +217,36 @@ def bedCase (c : Case) : List String :=
     ["R ok", "OPEN ok", chromsLine c names, "ZOOMS" ++ String.join ((levels c).map fun l => s!" {l}"),
      s!"HDR version=4 fields={fc} defined={fc} compressed={c.opt "compress" "0"}",
      s!"SUM {n} {t.bases} {t.mn} {t.mx} {t.sum} {t.sumsq}", s!"ITEMCOUNT {n}", s!"AUTOSQL {hex text}"] ++ answers
+
+end Drv
+
+namespace Drv
+
+def fnv64 (bs : List Nat) : Nat :=
+  bs.foldl (fun h b => ((h ^^^ b) * 0x100000001b3) % 2 ^ 64) 0xcbf29ce484222325
+
+def hex16 (n : Nat) : String := String.ofList ((List.range 16).map fun i => hexDigit ((n / 16 ^ (15 - i)) % 16))
+
+/-- (B) byte-level correspondence: the bytes the model writer lays down for an uncompressed bigWig with manual
+    zoom sizes and integer values (`BW.writeBigWig`), as length + FNV-1a hash, to compare with the real file. -/
+def wigBytesCase (c : Case) : List String :=
+  let recs : List (String × WigV) := (c.records "V").map fun l =>
+    (l.getD 1 "", ⟨nat (l.getD 2 ""), nat (l.getD 3 ""), hexNat (l.getD 4 "0")⟩)
+  let runs := groupRuns recs
+  let sizes := chromSizes c
+  let zooms := c.opt "zooms" "none"
+  let zs : Option (List Nat) := if zooms == "none" then some [] else if zooms == "auto" then none else
+    some (((zooms.splitOn ",").map nat).filter (· ≠ 0)).eraseDups
+  let input : Option (List (List Nat × Nat × List BW.V)) := runs.mapM fun (n, vs) =>
+    -- small integers only: every statistic is then exact in f64 / f32, as in the model's exact arithmetic
+    (vs.mapM fun v => ((f32Int? v.bits).filter fun i => i.natAbs < 2 ^ 16).map fun i => (⟨v.s, v.e, i⟩ : BW.V)).map fun xs =>
+      (nameBytes n, ((sizes.find? (·.1 == n)).map (·.2)).getD 0, xs)
+  match zs, input with
+  | some z, some inp =>
+    if c.opt "compress" "0" != "0" then ["BYTES na"] else
+    let sorted := (z.toArray.qsort (· < ·)).toList.take 10
+    let bytes := BW.writeBigWig ⟨nat (c.opt "ips" "1024"), nat (c.opt "bs" "256"), sorted⟩ inp
+    [s!"BYTES {bytes.length} {hex16 (fnv64 bytes)}"] ++ (if c.opt "dump" "0" == "1" then [s!"HEX {hex bytes}"] else [])
+  | _, _ => ["BYTES na"]
 
 end Drv
